@@ -24,6 +24,11 @@ def obligations(tier):
         o.append(Obl("one_step_%s%s" % (op[3:].lower(), "" if kind is None else "_kind%d" % kind), "h_rc.c", d, unwind=4, unwindset=US, timeout=600, funcs=F, cost=10,
                      desc="one call of the operation from ARBITRARY reference counts (count = owners + symbolic surplus): each count changes by the documented delta, an item is released iff its count reached 0, exactly once",
                      bounds="all surplus values 0..2^64-17 per operand; operand shapes: leaf, array with a child held twice, map pair, tag, chunked string, nested tag+array", sample=d))
+    for kind, nm in ((1, "indefinite_array"), (2, "indefinite_map"), (3, "chunked_bytestring"), (4, "chunked_string"), (5, "definite_array"), (6, "definite_map")):
+        for pre in (1, 2, 3, 4, 5):
+            o.append(Obl("one_step_append_%s_after_%d" % (nm, pre), "h_rc.c", {"OP": "OP_APPEND_NTH", "KIND": kind, "PRE": pre}, unwind=8, unwindset=["cbor_decref.0:8", "cbor_decref.1:8", "cbor_decref.2:8", "cbor_decref.3:8"], timeout=600, funcs=F, cost=10,
+                         desc="append to a %s that already holds %d entries (growth steps 1,2,4,8 and the free-slot positions in between), appended item's count = owners + symbolic surplus: exactly one reference per stored position; release gives them back" % (nm, pre),
+                         bounds="all surplus values; prior sizes 1..5", sample={"kind": nm, "pre": pre}))
     # (b) enumerated short histories with a shadow ownership model
     A = alpha(2)
     L = 3
